@@ -75,7 +75,7 @@ func VerifC12Rows() {
 	rows, allBlank := c12Rows()
 	w := newVerifWriter()
 	var err error
-	route := verifChoose("route", 0, 9)
+	route := verifChoose("route", 0, 13)
 	vfsReset()
 	vfsSeal()
 	calls := 0
@@ -101,6 +101,14 @@ func VerifC12Rows() {
 		err = OutputFromMarkdown(w, &verifReader{lines: rows}, WithMassive(context.Background()))
 	case 9:
 		err = WalkFromMarkdown(&verifReader{lines: rows}, func(*WalkerNode) error { calls++; return nil }, WithMassive(context.Background()))
+	case 10:
+		err = OutputFromMarkdown(w, &verifReader{lines: rows}, WithMassive(context.Background()), WithEncodeJSON())
+	case 11:
+		err = OutputFromMarkdown(w, &verifReader{lines: rows}, WithMassive(context.Background()), WithDryRun())
+	case 12:
+		err = MkdirFromMarkdown(&verifReader{lines: rows}, WithMassive(context.Background()), WithTargetDir(vfsTarget()))
+	case 13:
+		err = VerifyFromMarkdown(&verifReader{lines: rows}, WithMassive(context.Background()), WithTargetDir(vfsTarget()))
 	}
 	verifReach("C12.returned")
 	if allBlank {
